@@ -18,7 +18,7 @@ from multiprocessing import get_context
 
 from .. import core, tlc, validate
 
-NAMES = {"a": "a", "b": "b é.dir", "s/c": "s ü/c c", "s/t/d": "s ü/t/.d"}
+NAMES = {"a": "s ü.a", "b": "b é.dir", "s/c": "s ü/c c", "s/t/d": "s ü/t/.d"}
 REV = {v: k for k, v in NAMES.items()}
 CONTENTS = {"c0": b"", "c1": b"line one\nline two\n", "c2": b"crlf one\r\ncrlf two\r\n", "c3": b"LINE ONE\nline two\n"}
 assert len(CONTENTS["c1"]) == 18 and len(CONTENTS["c2"]) == 20 and len(CONTENTS["c3"]) == 18
